@@ -284,6 +284,8 @@ def rand_output(seed: int, big: bool = False, nonfinite: bool = False):
         ns.callback = solve_like          # a callable other than func → repr string
     if rnd.random() < 0.3:
         ns.model_path = Path("/foo/bar/model")
+    if rnd.random() < 0.4:
+        ns.net_arch = {"pi": [64, 64], "vf": {"units": [32], "act": "tanh"}}     # a dict-valued argument (nested keys in the file)
     if nonfinite:
         cells = [(i, j) for i in range(r) for j in range(c)]
         for (i, j), v in zip(rnd.sample(cells, min(2, len(cells))), rnd.sample([float("nan"), float("inf"), float("-inf")], 2)):
@@ -291,8 +293,14 @@ def rand_output(seed: int, big: bool = False, nonfinite: bool = False):
     return Output(data, actions, ns), kind
 
 
-NAMES = ["a", "b", "run 1", "ü", "", "data", "x/y", "a" * 40, "NaN", "q\"uote", "new\nline", "0"]
-FULL_NAMES = ["a", "b", "run 1", "ü", "data", "NaN", "q\"uote", "0", "data.json"]     # usable as a file / directory name by the plot savers
+# names: plain, awkward for JSON / file names, EQUAL TO KEYS NESTED INSIDE EARLIER ENTRIES ("metadata", "actions", "net_arch", "pi" —
+# an entry name is a top-level key only), and dotted names that share everything up to their last dot (two runs of one sweep,
+# two ISO time stamps of one second: `with_suffix` would map them to one plot file)
+NAMES = ["a", "b", "run 1", "ü", "", "data", "x/y", "a" * 40, "NaN", "q\"uote", "new\nline", "0",
+         "metadata", "actions", "net_arch", "pi", "sweep.lr0.1", "sweep.lr0.2", "2026-01-01T10:00:00.123", "2026-01-01T10:00:00.456", "a.b"]
+SIBLING_NAMES = [("sweep.lr0.1", "sweep.lr0.2"), ("2026-01-01T10:00:00.123", "2026-01-01T10:00:00.456"), ("a.b", "a.c")]
+FULL_NAMES = ["a", "b", "run 1", "ü", "data", "NaN", "q\"uote", "0", "data.json",     # usable as a file / directory name by the plot savers
+              "metadata", "net_arch", "sweep.lr0.1", "sweep.lr0.2", "2026-01-01T10:00:00.123", "2026-01-01T10:00:00.456", "a.b", "a.c"]
 
 
 def caller_snapshot(out) -> tuple:
@@ -558,6 +566,9 @@ def run_c19(tier, budget: Budget, rnd) -> StreamResult:
                 saves = []
                 for step in range(rnd.randint(2, 3)):
                     name = saves[0]["name"] if step == 2 and h % 2 == 0 else rnd.choice([n for n in FULL_NAMES if n not in {s_["name"] for s_ in saves}])
+                    if h % 3 == 1 and step < 2:
+                        # two different names that agree up to their last dot (runs of one sweep / time stamps of one second)
+                        name = SIBLING_NAMES[(h // 3) % len(SIBLING_NAMES)][step]
                     saves.append({"name": name, "seed": rnd.randint(0, 10 ** 9), "big": False, "via": "full", "nonfinite": True})
                     if step == 1 and h % 3 == 2:
                         saves[-1]["poison"] = rnd.choice(POISONS)
